@@ -57,3 +57,12 @@ Theorem c14_retry_bound : forall errs,
   (cmds <= 21)%nat /\ (stored = true <-> (errs <= 20)%nat) /\ (stored = true -> cmds = S errs).
 Proof. exact dev_write_word_bound. Qed.
 Print Assumptions c14_retry_bound.
+
+(* SubDevice::set_alias_address: the alias the SubDevice reports afterwards is the new one exactly
+   when the EEPROM update succeeded - a failed call (busy device, command errors beyond the retry
+   bound) leaves the reported alias as it was, whatever it did or did not write. *)
+Theorem c14_reported_alias : forall p reported a,
+  (forall p', set_station_alias p a = Ok p' -> set_alias_address p reported a = (Ok p', a)) /\
+  ((forall p', set_station_alias p a <> Ok p') -> snd (set_alias_address p reported a) = reported).
+Proof. exact reported_alias. Qed.
+Print Assumptions c14_reported_alias.
